@@ -35,7 +35,7 @@ RULE = ("each run is a history of 1-6 client operations (get with/without query,
         "unreadable) and the bytes its peer decrypted plus the order of the pin lookup and the "
         "first application send are checked. distinct = distinct (operation, classification, "
         "reader) vectors; non-trivial = at least one changed or unreadable connection occurred")
-PROBES = ["storage_fault_while_client_is_created", "restart_more_than_a_year_later", "client_used_as_context_manager_in_between", "connection_fails_at_accept_first", "ca_validation_on_as_well", "impostor_connection", "unreadable_connection", "impostor_never_reads",
+PROBES = ["caller_supplied_ssl_context", "storage_fault_while_client_is_created", "restart_more_than_a_year_later", "client_used_as_context_manager_in_between", "connection_fails_at_accept_first", "ca_validation_on_as_well", "impostor_connection", "unreadable_connection", "impostor_never_reads",
           "impostor_lazy", "upload_to_impostor", "redirect_hop_to_impostor", "ordering_checked",
           "large_upload", "sql_fault_during_operation", "overlapping_operations_one_endpoint"]
 COMPONENTS = {
@@ -82,8 +82,20 @@ def run_one(ch):
         h = spell(ch, h)
         return f"gemini://{h}{'' if p == 1965 else ':%d' % p}{path}"
 
+    # the caller may hand the client a TLS context of its own (TOFU stays in charge of trust)
+    own_ctx_kw = {}
+    if not ca_mode and ch.chance("own_ssl_context", 0.12):
+        import ssl as _ssl
+        c_ = _ssl.create_default_context()
+        c_.check_hostname = False
+        c_.verify_mode = _ssl.CERT_NONE
+        c_.minimum_version = _ssl.TLSVersion.TLSv1_2
+        own_ctx_kw = {"ssl_context": c_}
+        res.stats["caller_supplied_ssl_context"] += 1
+
     async def main():
-        client = GeminiClient(timeout=8.0, tofu_db_path=pathlib.Path(w.db_path), verify_ssl=ca_mode)
+        client = GeminiClient(timeout=8.0, tofu_db_path=pathlib.Path(w.db_path), verify_ssl=ca_mode,
+                              **own_ctx_kw)
         db = client.tofu_db
         # pre-pin some endpoints to certificates that may differ from what is served
         for _ in range(ch.choose("prepin", 4)):
